@@ -14,6 +14,8 @@ def run(F, rep, tier):
     M = model.Model(F, rep, want=("with_capacity", "push_null", "read_push"))
     model.rule_L2(rep, M)
     gate_ok = safety.gate_consistency_table(F, rep, M)
+    from props import C10
+    C10.same_version_rule(F, rep)      # the G-class discharge assumes allocation and reads see the same version
     rep.floor("reader entry points", len([e for e in ENTRIES if e in G.local]), 5)
     R, ctx = safety.panic_inventory(F, G, rep, ENTRIES, "c06_invariants.json", M=M, gate_ok=gate_ok)
     rep.floor("functions reachable from the reader entries", len(R), 60)
